@@ -30,7 +30,8 @@ func TestC17Concurrent(t *testing.T) {
 	rapid.Check(t, func(rt *rapid.T) {
 		n := rapid.IntRange(3, 8).Draw(rt, "nodes")
 		failEvery := rapid.SampledFrom([]int{0, 0, 7, 3}).Draw(rt, "failEvery")
-		iters := rapid.IntRange(20, 60).Draw(rt, "iterations")
+		iters := rapid.IntRange(40, 160).Draw(rt, "iterations")
+		editEvery := rapid.SampledFrom([]int{2, 3, 10}).Draw(rt, "editEvery")
 		c := sim.New(sim.Options{AffinityMode: rapid.Bool().Draw(rt, "affinity")})
 		c.NoRecord = true
 		for i := 0; i < n; i++ {
@@ -91,9 +92,11 @@ func TestC17Concurrent(t *testing.T) {
 		})
 		worker("kubelet", func(i int) { c.KubeletProgress(); c.Advance(3 * time.Second) })
 		worker("user", func(i int) {
+			if i%editEvery == 1 {
+				// frequent template changes: replica sets are created, superseded and collected while others sync
+				_ = c.EditEDS("ns1", "foo", func(x *edsv1.ExtendedDaemonSet) { x.Spec.Template = gen.LetterTemplate("ABCDG"[(i/editEvery)%5]) })
+			}
 			switch i % 10 {
-			case 3:
-				_ = c.EditEDS("ns1", "foo", func(x *edsv1.ExtendedDaemonSet) { x.Spec.Template = gen.LetterTemplate("ABC"[(i/10)%3]) })
 			case 6:
 				_ = c.SetEDSAnnotation("ns1", "foo", oracle.AnnRollingPaused, []string{"true", "false"}[(i/10)%2])
 			case 8:
